@@ -24,6 +24,9 @@ pub struct EncodeOpts {
     pub version: u8,
     /// emit a parent record also for terms without parents (as `as_bytes` does)
     pub emit_empty_parent_records: bool,
+    /// order of the records inside the parents section: None = same order as the term records,
+    /// Some(seed) = an independent pseudo-random order
+    pub parent_record_order: Option<u64>,
 }
 
 /// Encode the facts in exactly the order they appear in the FactSet.
@@ -74,7 +77,12 @@ pub fn encode(f: &FactSet, opts: &EncodeOpts) -> (Vec<u8>, Layout) {
     }
     sec.clear();
     rel.clear();
-    for t in &f.terms {
+    let mut parent_order: Vec<&crate::facts::TermFact> = f.terms.iter().collect();
+    if let Some(seed) = opts.parent_record_order {
+        let mut r = crate::rng::Rng::new(seed);
+        r.shuffle(&mut parent_order);
+    }
+    for t in parent_order {
         let ps = by_child.get(&t.id).cloned().unwrap_or_default();
         if ps.is_empty() && !opts.emit_empty_parent_records {
             continue;
